@@ -45,6 +45,46 @@ def sites2(files):
     return out
 
 
+def sites3(files):
+    """Third operator set: every decimal integer literal off by one (n+1, and n-1 for n > 0), boolean literals
+    outside return statements flipped, `break` <-> `continue`."""
+    out = []
+    for f in files:
+        lines = open(os.path.join("/repo", f)).read().split("\n")
+        in_block_comment = False
+        in_const = False
+        for i, line in enumerate(lines):
+            code = line.split("//")[0]
+            if "/*" in code:
+                in_block_comment = True
+            if in_block_comment:
+                if "*/" in line:
+                    in_block_comment = False
+                continue
+            st = code.strip()
+            if not st or st.startswith(("import", "package", '"')):
+                continue
+            masked = re.sub(r'"(\\.|[^"\\])*"', lambda m: '"' + "_" * (len(m.group(0)) - 2) + '"', code)
+            masked = re.sub(r"'(\\.|[^'\\])*'", lambda m: "'" + "_" * (len(m.group(0)) - 2) + "'", masked)
+            masked = re.sub(r"`[^`]*`", lambda m: "`" + "_" * (len(m.group(0)) - 2) + "`", masked)
+            for m in re.finditer(r"(?<![\w\.])(\d+)(?![\w\.])", masked):
+                n = int(m.group(1))
+                if m.group(1).startswith("0") and len(m.group(1)) > 1:
+                    continue
+                for d in ((1, -1) if n > 0 else (1,)):
+                    new = line[:m.start()] + str(n + d) + line[m.end():]
+                    out.append((f, i, line, new, "int%+d" % d))
+            if not st.startswith("return"):
+                for m in re.finditer(r"(?<![\w\.])(true|false)(?![\w])", masked):
+                    new = line[:m.start()] + ("false" if m.group(1) == "true" else "true") + line[m.end():]
+                    out.append((f, i, line, new, "flip-bool-literal"))
+            if st == "break":
+                out.append((f, i, line, line.replace("break", "continue"), "break->continue"))
+            if st == "continue":
+                out.append((f, i, line, line.replace("continue", "break"), "continue->break"))
+    return out
+
+
 def sites(files):
     out = []
     for f in files:
@@ -143,7 +183,7 @@ def main():
     files = sorted(f for f in os.listdir("/repo") if f.endswith(".go") and not f.endswith("_test.go"))
     if "--files" in args:
         files = args[args.index("--files") + 1].split(",")
-    all_sites = sites2(files) if "--ops2" in args else sites(files)
+    all_sites = sites3(files) if "--ops3" in args else (sites2(files) if "--ops2" in args else sites(files))
     if "--covered" in args:
         # keep only sites on lines the checks' workload executes (coverage profile of the quick tier):
         # a mutant on a line nothing runs cannot be observed by any check and is known from the
